@@ -65,7 +65,8 @@ class COOData:
         # the element index runs fastest in data, the last local index slowest
         local = self.data.reshape((-1,) + self.local_shape, order='F')
         if basis is not None:
-            out = np.zeros((basis.mesh.nfacets,) + local.shape[1:])
+            out = np.zeros((basis.mesh.nfacets,) + local.shape[1:],
+                           dtype=local.dtype)
             out[basis.find] = local
             local = np.sum(out[basis.mesh.t2f], axis=0)
 
@@ -207,7 +208,7 @@ class COOData:
 
         """
         y = self.data * x[self.indices[1]]
-        z = np.zeros_like(x)
+        z = np.zeros(self.shape[0], dtype=y.dtype)
         np.add.at(z, self.indices[0], y)
         if D is not None:
             z[D] = x[D]
